@@ -11,7 +11,7 @@ NAMES = ("p0", "p1")
 
 class DSim:
     def __init__(self, expected=(None, None), can_dilate=(("ged",), ("ged",)), half=False, app=True, max_links=4,
-                 listen_late=False, stoppable=False, ping_interval=30.0, both_write=False, sides=("aa" * 8, "bb" * 8), peer_inert=False, throttle=False, no_listen=(False, False), silent_after_connect=False, lose_any=False, big_write=False, lazy_tcp=False, late_loss_report=False):
+                 listen_late=False, stoppable=False, ping_interval=30.0, both_write=False, sides=("aa" * 8, "bb" * 8), peer_inert=False, throttle=False, no_listen=(False, False), silent_after_connect=False, lose_any=False, big_write=False, lazy_tcp=False, late_loss_report=False, half_open=False):
         self.w = self.make_world(sides=sides, expected=expected, can_dilate=can_dilate, ping_interval=ping_interval, no_listen=no_listen)
         self.w.__enter__()
         self.w.inert = peer_inert
@@ -26,6 +26,7 @@ class DSim:
         self.silent_after_connect = silent_after_connect   # canonical run: the link goes silent after convergence until the leader's monitor gives up
         self.listen_late = listen_late
         self.late_loss_report = late_loss_report   # the two ends of a link learn of its loss separately, the Leader's end as late as possible (canonical run)
+        self.half_open = half_open      # a live link may die so that only the Follower's end learns of it (the Leader's end stays half-open)
         self.started = [False, False]
         self.stopped_req = [False, False]
         self.trace = []
@@ -105,6 +106,11 @@ class DSim:
         for t in w.net.closing:
             if ("lose", t.link) not in acts:
                 acts.append(("lose", t.link))
+        if self.half_open and self.lost_count < 1:
+            for (a, b) in w.net.links:
+                for t in (a, b):
+                    if not t.lost and not t.closed and not self._is_leader_end(t.link, t.end) and any(p.link == t.link for i in (0, 1) for (p, _) in w.selected(i)):
+                        acts.append(("lose1", t.link, t.end))
         if self.late_loss_report:
             # a link somebody hung up on: each end learns of the loss on its own (the end that did not hang up first)
             ends = []
@@ -212,6 +218,9 @@ class DSim:
                 self.cause_losses = getattr(self, "cause_losses", 0) + 1
             w.lose(act[1])
         elif k == "lose1":
+            if self.half_open and not any(t.link == act[1] for t in w.net.closing):
+                self.lost_count += 1
+                self.cause_losses = getattr(self, "cause_losses", 0) + 1
             w.lose_end(act[1], act[2])
         elif k == "turn":
             w.turn()
